@@ -213,10 +213,10 @@ class SM:
             bl = n.block
             hit = False
             for s_ in bl["s"]:
-                if s_["k"] == "assign" and _chain_ends(s_["p"], suffix):
+                if s_["k"] == "assign" and _chain_ends(s_["p"], suffix, n.ctx.bv):
                     hit = True
             t = bl["t"]
-            if t["k"] == "call" and _chain_ends(t["dest"], suffix):
+            if t["k"] == "call" and _chain_ends(t["dest"], suffix, n.ctx.bv):
                 hit = True
             if not hit and t["k"] == "call" and t.get("name") in ("add_assign", "sub_assign", "replace", "take", "insert", "get_or_insert_with") and t["args"]:
                 # compound assignment through a &mut borrow of the field
@@ -299,8 +299,21 @@ def _chain(place):
     return [e.get("n", str(e.get("i"))) for e in place.get("p", []) if e["k"] == "field"]
 
 
-def _chain_ends(place, suffix):
+def _chain_ends(place, suffix, bv=None):
     ch = _chain(place)
+    if bv is not None and len(ch) < len(suffix) and place.get("p") and place["p"][0]["k"] == "deref":
+        # a write through a local reference (`let st = &mut self.context.state; st.x = ..`): prepend what it borrows
+        t = bv.trace_local(place["l"])
+        pre = []
+        for a in lib.alts(t):
+            cur = []
+            while a[0] in ("ref", "deref", "field"):
+                if a[0] == "field":
+                    cur.append(str(a[2]))
+                a = a[1]
+            pre.append(cur[::-1])
+        if pre and all(x == pre[0] for x in pre):
+            ch = pre[0] + ch
     return len(ch) >= len(suffix) and tuple(ch[-len(suffix):]) == tuple(suffix)
 
 
